@@ -263,3 +263,213 @@ theorem fixdate_syntax (c : Civil) (hv : ValidCivil c) (hns : c.ns < 1000000000)
   simp only [hlap, tf, Bool.and_self]
 
 end TrackVerif.LT.Spec
+
+namespace TrackVerif.LT.Spec
+open TrackVerif TrackVerif.LT TrackVerif.LT.Fmt
+
+/-! ### Intermediates: one `MM:SS.cc,d.d` per indented line -/
+
+def isSp (c : Char) : Bool := isBlank c || c = '\n'
+
+theorem trimSpace_eq (s : List Char) : trimSpace s = ((s.dropWhile isSp).reverse.dropWhile isSp).reverse := rfl
+
+/-- a line that starts and ends with a non-blank character, behind some tabs -/
+theorem trimSpace_tabs (n : Nat) (l : List Char) (a b : Char) (mid : List Char) (hl : l = a :: mid ++ [b])
+    (ha : isSp a = false) (hb : isSp b = false) :
+    trimSpace (List.replicate n '\t' ++ l) = l := by
+  rw [trimSpace_eq]
+  have htab : isSp '\t' = true := by decide
+  have h1 : (List.replicate n '\t' ++ l).dropWhile isSp = l := by
+    induction n with
+    | zero => simp [hl, List.dropWhile, ha]
+    | succ n ih => simp only [List.replicate_succ, List.cons_append, List.dropWhile, htab]; exact ih
+  rw [h1, hl]
+  have h2 : (a :: mid ++ [b]).reverse = b :: (a :: mid).reverse := by simp
+  rw [h2]
+  simp only [List.dropWhile, hb]
+  simp
+
+theorem trimSpace_only_tabs (n : Nat) : trimSpace (List.replicate n '\t') = [] := by
+  rw [trimSpace_eq]
+  have htab : isSp '\t' = true := by decide
+  have : (List.replicate n '\t').dropWhile isSp = [] := by
+    induction n with
+    | zero => rfl
+    | succ n ih => simp only [List.replicate_succ, List.dropWhile, htab]; exact ih
+  rw [this]; rfl
+
+/-- the text of one intermediate: duration, comma, one-decimal distance -/
+def interLine (m s cs : Nat) (b : UInt64) : List Char :=
+  (Dec.padLeft 2 '0' (natChars m) ++ ':' :: (Dec.padLeft 2 '0' (natChars s) ++ '.' :: Dec.padLeft 2 '0' (natChars cs))) ++
+    ',' :: (Dec.formatFixed b 1).toList
+
+theorem interLine_line (m s cs : Nat) (b : UInt64) (f : Dec.Parts) (hf : Dec.classify b = .finite f)
+    (hs : s < 60) (hcs : cs < 100) :
+    (match splitOnChar ',' (interLine m s cs b) with
+     | [t, d] => isDuration t && isFixed 1 d
+     | _ => false) = true := by
+  unfold interLine
+  have dm := padLeft_digits 2 _ (natChars_digits m)
+  have ds := padLeft_digits 2 _ (natChars_digits s)
+  have dc := padLeft_digits 2 _ (natChars_digits cs)
+  have hdur : ∀ x ∈ Dec.padLeft 2 '0' (natChars m) ++ ':' :: (Dec.padLeft 2 '0' (natChars s) ++ '.' :: Dec.padLeft 2 '0' (natChars cs)),
+      x ≠ ',' := by
+    intro x hx
+    simp only [List.mem_append, List.mem_cons] at hx
+    rcases hx with h | h | h | h | h
+    · exact (digit_not_punct x (dm x h)).2.2.1
+    · subst h; decide
+    · exact (digit_not_punct x (ds x h)).2.2.1
+    · subst h; decide
+    · exact (digit_not_punct x (dc x h)).2.2.1
+  rw [splitOnChar_append ',' _ _ hdur, splitOnChar_none ',' _ (formatFixed_no_comma b 1 f hf)]
+  simp only [duration_syntax m s cs hs hcs, formatFixed_syntax b 1 f hf, Bool.and_self]
+
+end TrackVerif.LT.Spec
+
+namespace TrackVerif.LT.Spec
+open TrackVerif TrackVerif.LT TrackVerif.LT.Fmt
+
+def tab3 (l : List Char) : List Char := '\t' :: '\t' :: '\t' :: l
+
+/-- the element text: every item on its own indented line, then the closing indentation -/
+def interText (lines : List (List Char)) : List Char :=
+  (lines.map fun l => '\n' :: tab3 l).flatten ++ ['\n', '\t', '\t']
+
+structure GoodLine (l : List Char) : Prop where
+  ends : ∃ a mid b, l = a :: mid ++ [b] ∧ isSp a = false ∧ isSp b = false
+  noNl : ∀ x ∈ l, x ≠ '\n'
+  ok : (match splitOnChar ',' l with | [t, d] => isDuration t && isFixed 1 d | _ => false) = true
+
+theorem split_interText : ∀ (lines : List (List Char)) (pre : List Char), (∀ x ∈ pre, x ≠ '\n') →
+    (∀ l ∈ lines, ∀ x ∈ l, x ≠ '\n') →
+    splitOnChar '\n' (pre ++ interText lines) = pre :: (lines.map tab3 ++ [['\t', '\t']])
+  | [], pre, hp, _ => by
+    simp only [interText, List.map_nil, List.flatten_nil, List.nil_append]
+    rw [splitOnChar_append '\n' pre _ hp, splitOnChar_none '\n' ['\t', '\t'] (by decide)]
+  | l :: ls, pre, hp, hl => by
+    have hl1 : ∀ x ∈ tab3 l, x ≠ '\n' := by
+      intro x hx
+      simp only [tab3, List.mem_cons] at hx
+      rcases hx with h | h | h | h
+      · subst h; decide
+      · subst h; decide
+      · subst h; decide
+      · exact hl l (List.mem_cons_self) x h
+    have ih := split_interText ls (tab3 l) hl1 (fun l' hl' => hl l' (List.mem_cons_of_mem _ hl'))
+    have e : pre ++ interText (l :: ls) = pre ++ '\n' :: (tab3 l ++ interText ls) := by
+      simp [interText, List.append_assoc]
+    rw [e, splitOnChar_append '\n' pre _ hp, ih]
+    simp
+
+theorem trimSpace_tab3 (l : List Char) (h : GoodLine l) : trimSpace (tab3 l) = l := by
+  obtain ⟨a, mid, b, e, ha, hb⟩ := h.ends
+  have := trimSpace_tabs 3 l a b mid e ha hb
+  simpa [tab3, List.replicate] using this
+
+/-- **intermediates**: any non-empty list of good lines, laid out as the encoder does, has
+    LapTimer's intermediates syntax -/
+theorem intermediates_syntax (lines : List (List Char)) (hne : lines ≠ []) (hg : ∀ l ∈ lines, GoodLine l) :
+    isIntermediates (interText lines) = true := by
+  unfold isIntermediates
+  have hs := split_interText lines [] (by intro x hx; cases hx) (fun l hl => (hg l hl).noNl)
+  simp only [List.nil_append] at hs
+  rw [hs]
+  have e0 : trimSpace ([] : List Char) = [] := rfl
+  have e2 : trimSpace ['\t', '\t'] = [] := trimSpace_only_tabs 2
+  have hmap : (lines.map tab3).map trimSpace = lines := by
+    rw [List.map_map]
+    calc lines.map (trimSpace ∘ tab3) = lines.map id := by
+          apply List.map_congr_left
+          intro l hl
+          exact trimSpace_tab3 l (hg l hl)
+      _ = lines := by simp
+  have hfilter : lines.filter (fun l => !l.isEmpty) = lines := by
+    apply List.filter_eq_self.mpr
+    intro l hl
+    obtain ⟨a, mid, b, e, _, _⟩ := (hg l hl).ends
+    rw [e]; rfl
+  simp only [List.map_cons, List.map_append, List.map_nil, e0, e2, hmap, List.filter_cons, List.filter_append,
+    List.isEmpty_nil, Bool.not_true, Bool.false_eq_true, if_false, hfilter, List.filter_nil, List.append_nil]
+  have hne' : lines.isEmpty = false := by cases lines <;> simp_all
+  simp only [hne', Bool.not_false, Bool.true_and, List.all_eq_true]
+  intro l hl
+  exact (hg l hl).ok
+
+end TrackVerif.LT.Spec
+
+namespace TrackVerif.LT.Spec
+open TrackVerif TrackVerif.LT TrackVerif.LT.Fmt
+
+theorem formatFixed_chars (b : UInt64) (p : Nat) (f : Dec.Parts) (hf : Dec.classify b = .finite f) :
+    ∀ x ∈ (Dec.formatFixed b p).toList, x = '-' ∨ x = '.' ∨ isDigit x = true := by
+  unfold Dec.formatFixed
+  obtain ⟨neg, mant, exp⟩ := f
+  simp only [hf, String.toList_ofList]
+  intro x hx
+  have hs : ∀ y ∈ Dec.natDigits (Dec.scaledRound mant exp p / 10 ^ p) ++
+      (if p = 0 then [] else '.' :: Dec.padLeft p '0' (Dec.natDigits (Dec.scaledRound mant exp p % 10 ^ p))),
+      y = '-' ∨ y = '.' ∨ isDigit y = true := by
+    intro y hy
+    rcases List.mem_append.mp hy with h | h
+    · exact Or.inr (Or.inr (natChars_digits _ y h))
+    · by_cases hp : p = 0
+      · simp [hp] at h
+      · simp only [hp, if_false, List.mem_cons] at h
+        rcases h with h | h
+        · exact Or.inr (Or.inl h)
+        · exact Or.inr (Or.inr (padLeft_digits p _ (natChars_digits _) y h))
+  cases neg with
+  | false => exact hs x (by simpa using hx)
+  | true =>
+    simp only [if_true, List.mem_cons] at hx
+    rcases hx with h | h
+    · exact Or.inl h
+    · exact hs x h
+
+theorem digit_not_sp (x : Char) (h : isDigit x = true) : isSp x = false := by
+  have := digit_not_blank x h
+  simp [isSp, this.1, this.2.1]
+
+theorem interLine_chars (m s cs : Nat) (b : UInt64) (f : Dec.Parts) (hf : Dec.classify b = .finite f) :
+    ∀ x ∈ interLine m s cs b, isSp x = false := by
+  intro x hx
+  have hp : isSp ':' = false ∧ isSp '.' = false ∧ isSp ',' = false ∧ isSp '-' = false := by decide
+  unfold interLine at hx
+  simp only [List.mem_append, List.mem_cons] at hx
+  rcases hx with (h | h | h | h | h) | h | h
+  · exact digit_not_sp x (padLeft_digits 2 _ (natChars_digits m) x h)
+  · subst h; exact hp.1
+  · exact digit_not_sp x (padLeft_digits 2 _ (natChars_digits s) x h)
+  · subst h; exact hp.2.1
+  · exact digit_not_sp x (padLeft_digits 2 _ (natChars_digits cs) x h)
+  · subst h; exact hp.2.2.1
+  · rcases formatFixed_chars b 1 f hf x h with e | e | e
+    · subst e; exact hp.2.2.2
+    · subst e; exact hp.2.1
+    · exact digit_not_sp x e
+
+theorem ends_of_length {l : List Char} (h : 2 ≤ l.length) : ∃ a mid b, l = a :: mid ++ [b] ∧ a ∈ l ∧ b ∈ l := by
+  cases l with
+  | nil => simp at h
+  | cons a t =>
+    have ht : t ≠ [] := by intro e; subst e; simp at h
+    refine ⟨a, t.dropLast, t.getLast ht, ?_, by simp, ?_⟩
+    · rw [List.cons_append, List.dropLast_concat_getLast ht]
+    · exact List.mem_cons_of_mem _ (List.getLast_mem ht)
+
+theorem interLine_good (m s cs : Nat) (b : UInt64) (f : Dec.Parts) (hf : Dec.classify b = .finite f)
+    (hs : s < 60) (hcs : cs < 100) : GoodLine (interLine m s cs b) := by
+  have hch := interLine_chars m s cs b f hf
+  have hlen : 2 ≤ (interLine m s cs b).length := by
+    unfold interLine
+    simp only [List.length_append, List.length_cons]
+    omega
+  obtain ⟨a, mid, e, he, ha, hb⟩ := ends_of_length hlen
+  refine ⟨⟨a, mid, e, he, hch a ha, hch e hb⟩, ?_, interLine_line m s cs b f hf hs hcs⟩
+  intro x hx hn
+  have := hch x hx
+  subst hn
+  exact absurd this (by decide)
+
+end TrackVerif.LT.Spec
